@@ -49,6 +49,17 @@ var kindNames = map[reflect.Kind]string{
 	reflect.Uint64: "KUint64", reflect.Uintptr: "KUintptr",
 }
 
+// the element types with a two-dimensional fast path in slice_encoder.go (exact, unnamed types)
+var fast2d = map[reflect.Type]bool{}
+
+func init() {
+	for _, e := range []interface{}{uint16(0), uint32(0), uint64(0), uint(0), int8(0), int16(0), int32(0), int64(0), int(0),
+		false, float32(0), float64(0), complex64(0), complex128(0), ""} {
+		fast2d[reflect.SliceOf(reflect.SliceOf(reflect.TypeOf(e)))] = true
+	}
+	fast2d[reflect.SliceOf(reflect.SliceOf(ifaceType))] = true
+}
+
 // hprose field rule, re-implemented from the documentation: exported fields, alias from the
 // hprose tag, then the json tag, else the name with a lower-cased first letter; "-" skips;
 // embedded structs are flattened.
@@ -215,6 +226,20 @@ func (w *walker) walk(v reflect.Value) string {
 					sb.WriteString(" nil")
 				} else {
 					sb.WriteString(" " + hx(v.Index(i).Bytes()))
+				}
+			}
+			sb.WriteString(")")
+			return sb.String()
+		}
+		if fast2d[t] {
+			// write2d<T>SliceBody writes every row with WriteListHead(len(row)): a nil row is "a{}"
+			var sb strings.Builder
+			sb.WriteString("(slice")
+			for i := 0; i < v.Len(); i++ {
+				if v.Index(i).IsNil() {
+					sb.WriteString(" (slice)")
+				} else {
+					sb.WriteString(" " + w.walk(v.Index(i)))
 				}
 			}
 			sb.WriteString(")")
